@@ -383,19 +383,36 @@ def state_task(task):
         else:
             rec("self", expect_rejected(H, g, "a non-reflection word"))
             count("from_reflection(reject)")
-        comp, comp_exp = [], []
+        conj = {}
+
+        def neg(C):
+            """the same isometry given by the matrix -M (the sheet-exchanging representative)"""
+            return H.Isometry(-real_array(C.matrix, "matrix"))
+
+        def tagged(bads):
+            return [(c, "[representative -M] " + d) for c, d in bads]
         for t, E in lib["ell"].items():
             C = g @ E @ gi
             rec("E%r" % (t,), elliptic_obligations(H, C, n, obs["origin"], obs["perp"], tol, n == 2))
             rec("E%r" % (t,), expect_rejected(H, C, "a conjugate of a rotation"))
+            if -1 in targets.get("reps", []):
+                rec("E%r" % (t,), tagged(elliptic_obligations(H, neg(C), n, obs["origin"], obs["perp"], tol, n == 2)))
             count("elliptic")
+        for k in targets.get("invol", []):
+            # an involution of determinant -1 whose (-1)-eigenspace has dimension k > 1: not a reflection
+            blk = np.eye(n)
+            blk[n - k:, n - k:] = -np.eye(k)
+            C = g @ H.Isometry.elliptic(n, blk) @ gi
+            rec("I(%d)" % k, expect_rejected(H, C, "a conjugate of the involution negating %d spatial coordinates" % k))
+            count("involution(reject)")
         for L in obs["lox"]:
             C = g @ lox_of(n, L["p"], L["q"]) @ gi
             lam = max(L["p"], L["q"]) / min(L["p"], L["q"])
             rec("L(%d/%d)" % (L["p"], L["q"]), loxodromic_obligations(H, C, n, L["attr"], L["rep"], tol * lam))
             rec("L(%d/%d)" % (L["p"], L["q"]), expect_rejected(H, C, "a conjugate of a loxodromic"))
-            comp.append(real_array(C.matrix, "matrix"))
-            comp_exp.append((L["attr"], L["rep"], tol * lam))
+            if -1 in targets.get("reps", []):
+                rec("L(%d/%d)" % (L["p"], L["q"]), tagged(loxodromic_obligations(H, neg(C), n, L["attr"], L["rep"], tol * lam)))
+            conj[(L["p"], L["q"])] = C
             count("loxodromic")
         for k, P in lib["para"].items():
             C = g @ P @ gi
@@ -408,25 +425,41 @@ def state_task(task):
             rec(sub, reflection_obligations(H, C, n, r["normal"], r["wallpts"], tol))
             rec(sub, accept_reflection(H, C, n, r["normal"], r["ends"], tol))
             count("reflection(conjugate)")
-        # composite isometry: the loxodromic conjugates of this state as one array
-        if len(comp) >= 2:
+        # composite isometry: the loxodromic conjugates of this state as one array, under the spec's history of
+        # queries and item assignments; every query must report what the CURRENT array determines
+        if obs.get("arr") and len(conj) >= 2:
+            done = []
             try:
-                A = H.Isometry(np.array(comp))
-                pair = real_array(A.fixed_point_pair().proj_data, "composite pair")
-                fp = real_array(A.fixed_point().proj_data, "composite fixed point")
-                ax = real_array(A.axis().endpoints, "composite axis")
-                if pair.shape != (len(comp), 2, n + 1) or fp.shape != (len(comp), n + 1) or ax.shape != pair.shape:
-                    out.append(("composite", "composite.shape", "shapes %r %r %r" % (pair.shape, fp.shape, ax.shape)))
-                else:
-                    for i, (a, b, tl) in enumerate(comp_exp):
-                        a, b = np.array(a, float), np.array(b, float)
+                A = H.Isometry(np.array([real_array(conj[tuple(t)].matrix, "matrix") for t in targets["loxseq"]]))
+                for step in obs["arr"]:
+                    op = step["op"]
+                    if op["op"] == "setitem":
+                        A[op["k"] - 1] = conj[tuple(op["t"])]
+                        done.append("[%d]=L(%d/%d)" % (op["k"] - 1, op["t"][0], op["t"][1]))
+                        continue
+                    done.append("query")
+                    m = len(step["after"])
+                    pair = real_array(A.fixed_point_pair().proj_data, "composite pair")
+                    fp = real_array(A.fixed_point().proj_data, "composite fixed point")
+                    ax = real_array(A.axis().endpoints, "composite axis")
+                    if pair.shape != (m, 2, n + 1) or fp.shape != (m, n + 1) or ax.shape != pair.shape:
+                        out.append(("composite", "composite.shape", "after %s: shapes %r %r %r" % (done, pair.shape, fp.shape, ax.shape)))
+                        break
+                    bad = None
+                    for i, e in enumerate(step["after"]):
+                        a, b = np.array(e["attr"], float), np.array(e["rep"], float)
+                        tl = tol * max(e["p"], e["q"]) / min(e["p"], e["q"])
                         if not (hc.proj_close(pair[i, 0], a, tl) and hc.proj_close(pair[i, 1], b, tl) and hc.proj_close(fp[i], a, tl)
                                 and hc.proj_close(ax[i, 0], a, tl) and hc.proj_close(ax[i, 1], b, tl)):
-                            out.append(("composite", "composite.loxodromic_pair", "entry %d: pair %r fixed_point %r, spec %r" % (i, pair[i].tolist(), fp[i].tolist(), [a.tolist(), b.tolist()])))
+                            bad = "after %s, entry %d = L(%d/%d): pair %r fixed_point %r, spec %r" % (
+                                done, i, e["p"], e["q"], pair[i].tolist(), fp[i].tolist(), [a.tolist(), b.tolist()])
                             break
+                    if bad:
+                        out.append(("composite", "composite.loxodromic_pair" if len(done) == 1 else "composite.history", bad))
+                        break
             except Exception as e:
-                out.append(("composite", "composite.raised", "%s: %s" % (type(e).__name__, e)))
-            count("composite isometry")
+                out.append(("composite", "composite.raised", "after %s: %s: %s" % (done, type(e).__name__, e)))
+            count("composite isometry history")
     except Exception as e:       # a library exception inside the domain is a violation, never a machinery failure
         out.append(("state", "raised", "%s: %s" % (type(e).__name__, e)))
     cnt["__notes__"] = dict(NOTES)
@@ -534,6 +567,18 @@ def independent(vectors, k):
     return None
 
 
+def independent_raw(vectors, k):
+    """the same, returning the vectors as given (integer coordinates)"""
+    chosen, raw = [], []
+    for v in vectors:
+        cand = chosen + [np.array(v, float) / np.linalg.norm(v)]
+        if np.linalg.svd(np.array(cand), compute_uv=False).min() > 1e-3:
+            chosen, raw = cand, raw + [list(v)]
+        if len(chosen) == k:
+            return raw
+    return None
+
+
 def wall_unit_task(task):
     warnings.simplefilter("ignore")
     n, o = task["n"], task["obs"]
@@ -569,6 +614,22 @@ def wall_unit_task(task):
             routes.append(("geodesic(from_reflection)", lambda: H.Geodesic.from_reflection(R)))
             if len(o["ends"]) == 2:
                 routes.append(("geodesic(exact endpoints)", lambda: H.Geodesic(np.array(o["ends"][0], float), np.array(o["ends"][1], float))))
+        # the wall is a projective class and the constructor takes numbers of any packaging: integer arrays, lists,
+        # other multiples of the normal, complete (n+1) x (n+1) hyperplane data whose first row is not a unit vector
+        if task.get("atom") is None:
+            ibf = real_array(hp.ideal_basis, "ideal basis")
+            raw = independent_raw([w for w in o["wallpts"] if hc.mink(np.array(w, float), np.array(w, float)) == 0], n)
+            for v in [o["wall"]] + sorted(o.get("reps", [])):
+                tag = "normal %r" % (v,)
+                routes.append((tag + " as integer array", lambda v=v: H.Hyperplane(np.array(v, dtype=int))))
+                routes.append((tag + " as list", lambda v=v: H.Hyperplane(list(v))))
+                if v != o["wall"]:
+                    routes.append((tag + " as float array", lambda v=v: H.Hyperplane(np.array(v, float))))
+                routes.append((tag + " + library ideal basis as complete data",
+                               lambda v=v: H.Hyperplane(np.concatenate([np.array([v], float), ibf], axis=0))))
+                if raw is not None:
+                    routes.append((tag + " + exact ideal points as complete integer data",
+                                   lambda v=v: H.Hyperplane(np.array([list(v)] + raw, dtype=int))))
         for name, make in routes:
             try:
                 RS = make().reflection_across()
@@ -589,12 +650,13 @@ def wall_composite(run, n, walls, rng):
     if k >= 6:
         shapes.append((k // 6, 6) if (k // 6) > 1 else (2, k // 2))
         shapes.append((1, k // 3, 3))
-    for shp in shapes:
+    variants = [(shp, float, 1) for shp in shapes] + [((k,), int, 1), ((k,), int, -3), ((k,), float, 2)]
+    for shp, dtype, scale in variants:
         cnt = int(np.prod(shp))
-        key = "wall:n=%d:composite%r" % (n, shp)
-        run.case(key=("wall composite", n, shp), action="composite hyperplanes")
+        key = "wall:n=%d:composite%r" % (n, shp) + ("" if (dtype, scale) == (float, 1) else ":%s*%d" % (dtype.__name__, scale))
+        run.case(key=("wall composite", n, shp, dtype.__name__, scale), action="composite hyperplanes")
         try:
-            hp = H.Hyperplane(U[:cnt].reshape(shp + (1, n + 1)).copy())
+            hp = H.Hyperplane((scale * U[:cnt]).reshape(shp + (1, n + 1)).astype(dtype))
             R = hp.reflection_across()
             Rm = real_array(R.matrix, "composite reflection")
             if Rm.shape != shp + (n + 1, n + 1):
@@ -765,16 +827,23 @@ def run(run, replay=None):
                 "(and per transported wall, per composite packaging); Coxeter: one case per word; evaluations count derived isometries")
     run.assumptions += [
         "conjugators g: words in HypIso's exact atoms (reflections, Pythagorean rotations, rational loxodromics, signed "
-        "permutations) and inverses, origin_to cosets in dimension 2 (rotations only); quick: length <= 2, all atoms for n = 2, 3 and "
-        "13 of 22 atoms for n = 4; thorough: length <= 3 for n = 2 (all atoms) and n = 3 (13 atoms), <= 2 with all atoms for n = 3, 4; "
+        "permutations) and inverses, origin_to cosets in dimension 2 (rotations only); quick: length <= 2, all atoms for n = 2 and "
+        "13 of 22 atoms for n = 3, 4; thorough: length <= 3 for n = 2, 3 (all atoms) and n = 4 (13 atoms), <= 2 with all atoms for n = 4; "
         "integer entries <= 15000",
         "derived isometries g T g^-1: rotations by 6 Pythagorean angles (incl. quarter and half turn), loxodromics lambda in "
-        "{2, 1/2, 3/2, 11/10, 5, 1/4}, parabolics R_(k,k,1) R_(0,0,1) (k = 1, -1, 2), reflections in 3-5 normals; Rich = FALSE "
-        "(quick n = 4, thorough n = 3 length 3) uses half of each list",
-        "walls: every primitive spacelike integer normal with |entries| <= WB (quick n=2: 3, n=3: 2, n=4: 1; thorough one more), "
-        "transported by one exact atom (quick: a seeded sample of the transports is replayed, n = 4 none); composite hyperplanes are "
-        "packaged as arrays of shape (..., 1, n+1), the form from_reflection itself produces (a bare (k, n+1) array of normals is not "
-        "a supported constructor input: it raises, and for k = n+1 is read as the data of ONE hyperplane)",
+        "{2, 1/2, 3/2, 11/10, 5, 1/4}, parabolics R_(k,k,1) R_(0,0,1) (k = 1, -1, 2), reflections in 3-5 normals, and (n >= 3) the "
+        "involution negating 3 spatial coordinates (determinant -1, not a reflection: must be rejected); Rich = FALSE (quick n = 3, 4) "
+        "uses half of each list",
+        "every elliptic and loxodromic conjugate is also handed over as the matrix -M (the other representative of the same "
+        "projective map): the reported fixed points must be the same",
+        "composite isometries: the array of the loxodromic conjugates of a state under the spec's history query, [0] = other, query, "
+        "[last] = other, [1] = other, query (item assignment through the public __setitem__)",
+        "walls: every primitive spacelike integer normal with |entries| <= WB (quick n=2: 3, n=3: 2, n=4: 1; thorough 5/3/2), "
+        "given as float array, integer array, list, the multiples 2u and -3u, and as complete (n+1)x(n+1) data with a non-unit first "
+        "row (library ideal basis / exact integer ideal points); transported by one exact atom (quick: n = 2 only, a seeded sample); "
+        "composite hyperplanes are packaged as arrays of shape (..., 1, n+1) (float and integer dtype), the form from_reflection itself "
+        "produces (a bare (k, n+1) array of normals is not a supported constructor input: it raises, and for k = n+1 is read as the "
+        "data of ONE hyperplane)",
         "the wall is also handed over as Subspace(ideal basis) and (n = 2) Geodesic(endpoints): their reflection_across must be the same R_u",
         "parabolic fixed points are compared with tolerance 2e-4 * |g| (cube-root conditioning of a 3x3 Jordan block); "
         "everything else 1e-9 * |g|^2",
@@ -782,14 +851,13 @@ def run(run, replay=None):
         "fixed subspace g.{x2 = x3 = 0}, not a particular one",
         "fixed_point(max_eigval=False) / fixed_point_pair(sort_eigvals=False): a refusal reports no point and is only noted "
         "(notes_outside_property); a reported point must satisfy the property",
-        "Coxeter reflections / products: value known up to conjugacy, so only the laws named by the spec are measured "
-        "(triangle groups (2,3,7), (3,3,4), (2,4,5), (3,4,inf); [3,5,3], [5,3,4] in dimension 3)",
+        "Coxeter reflections / products: value known up to conjugacy, so only the laws named by the spec are measured",
     ]
     # ---- TLC: all runs side by side
     if quick:
-        planA = [(2, 2, True), (3, 2, True), (4, 2, False)]
-        planB = {2: (3, 2), 3: (2, 2), 4: (1, 1)}
-        conj_limit = {2: 250, 3: 250, 4: 150}
+        planA = [(2, 2, True), (3, 2, False), (4, 2, False)]
+        planB = {2: (3, 2), 3: (2, 1), 4: (1, 1)}
+        conj_limit = {2: 200, 3: 0, 4: 0}
         wA, wB = 4, 2
     else:
         planA = [(2, 3, True), (3, 3, True), (4, 3, False), (4, 2, True)]
@@ -797,26 +865,34 @@ def run(run, replay=None):
         conj_limit = {2: 4000, 3: 6000, 4: 4000}
         wA, wB = 5, 3
     jobs = {}
-    with ThreadPoolExecutor(8) as ex:
+    # the worker processes are forked before any thread exists; the replay of a run starts as soon as TLC has
+    # finished it (fixed order: walls first, they are the short runs), while the other TLC runs are still going
+    nproc = min(8 if quick else 12, core.NCPU)
+    res = {}
+    t_rep = 0.0
+    with mp.get_context("fork").Pool(nproc) as pool, ThreadPoolExecutor(8) as ex:
+        for n, (wb, L) in planB.items():
+            c = core.cfg(constants=dict(N=n, MaxLen=L, WB=wb, Rich=False), init="InitWall", next_="NextWall",
+                         invariants=["WallLaws", "ObsWall"], view="ViewFix", action_constraints=["EmitFix"])
+            jobs[("B", n)] = ex.submit(run.tlc, "hyp/HypFix.tla", c, name="HypFix_wall_n%d" % n, workers=wB, timeout=1500)
         for n, L, rich in planA:
             c = core.cfg(constants=dict(N=n, MaxLen=L, WB=1, Rich=rich), init="InitFix", next_="NextFix",
                          invariants=["FixLaws", "FormPreserved", "Normalised", "ObsFix"], view="ViewFix", action_constraints=["EmitFix"])
             jobs[("A", n, L, rich)] = ex.submit(run.tlc, "hyp/HypFix.tla", c, name="HypFix_fix_n%d_len%d%s" % (n, L, "_rich" if rich else ""),
                                                 workers=wA, timeout=1500)
-        for n, (wb, L) in planB.items():
-            c = core.cfg(constants=dict(N=n, MaxLen=L, WB=wb, Rich=False), init="InitWall", next_="NextWall",
-                         invariants=["WallLaws", "ObsWall"], view="ViewFix", action_constraints=["EmitFix"])
-            jobs[("B", n)] = ex.submit(run.tlc, "hyp/HypFix.tla", c, name="HypFix_wall_n%d" % n, workers=wB, timeout=1500)
-        res = {k: f.result() for k, f in jobs.items()}
-    t_tlc = time.time() - run.t0
-    nproc = min(8 if quick else 12, core.NCPU)
-    with mp.get_context("fork").Pool(nproc) as pool:
         for n in planB:
+            res[("B", n)] = jobs[("B", n)].result()
+            t1 = time.time()
             walls(run, n, res[("B", n)], pool, rng, conj_limit[n])
+            t_rep += time.time() - t1
         for n, L, rich in planA:
+            res[("A", n, L, rich)] = jobs[("A", n, L, rich)].result()
+            t1 = time.time()
             walk_fix(run, n, res[("A", n, L, rich)], pool, "len<=%d%s" % (L, ",rich" if rich else ""))
-    t_rep = time.time() - run.t0 - t_tlc
+            t_rep += time.time() - t1
+    t_tlc = max(r.wall for r in res.values())
+    t1 = time.time()
     for n in (2, 3):
         coxeter(run, n, res[("B", n)])
-    run.extra["timing_s"] = dict(tlc=round(t_tlc, 1), replay=round(t_rep, 1), coxeter=round(time.time() - run.t0 - t_tlc - t_rep, 1),
+    run.extra["timing_s"] = dict(tlc_longest_run=round(t_tlc, 1), replay_overlapped=round(t_rep, 1), coxeter=round(time.time() - t1, 1),
                                  tlc_runs={"".join(map(str, k)): round(r.wall, 1) for k, r in res.items()})
